@@ -4,20 +4,12 @@ C12 — The session answers any bytes safely, once, and keeps going.
 Model: KmipModel/Session.lean (M7).  The request decoder, the engine and the
 response encoder are parameters (`Env`), so every theorem holds for every decoder
 verdict, every engine behaviour and every encoder that satisfies `EncoderOk`
-(error responses can be encoded and are smaller than the session maximum; what
-the engine returns can be encoded).  The correspondence run (harness/props/c12.py)
-takes the decoder verdict from the real `RequestMessage.read` and checks
-`EncoderOk` on every response the real session produced.
-
-Deviations of the code, kept visible:
- * `response.write` (session.py l.240) is outside every try block: when the engine returns a
-   response that cannot be encoded, the exception leaves `_handle_message_loop` and the client gets
-   nothing.  `OneResponsePerFrame` is the full statement, `one_response_per_frame_partial` what holds
-   (under `EngineEncodable`), `unencodable_response_unanswered` / `one_response_full_statement_fails`
-   the witness.  (Real input: KMIP 2.0 GetAttributes naming only attributes the object does not have.)
- * a requested Maximum Response Size of 0 is ignored (`if max_response_size:`, l.218) —
-   `OversizeReplaced` is the full statement, `oversize_replaced_partial` what holds,
-   `oversize_zero_not_replaced` the witness.
+(error responses can be encoded and are smaller than the session maximum).  Nothing
+is assumed about what the engine returns: a response that cannot be encoded is
+answered with a General Failure error (/repo 3b7c017), a requested Maximum Response
+Size of 0 is honoured (/repo 60a38dc).  The correspondence run (harness/props/c12.py)
+takes the decoder verdict from the real `RequestMessage.read` and checks `EncoderOk`
+on every response the real session produced.
 -/
 import KmipModel.Lemmas.Session
 namespace Kmip.C12
@@ -69,11 +61,6 @@ and is not larger than the session's own maximum -/
 structure EncoderOk (env : Env Q R σ) (cfg : SessionCfg) : Prop where
   errEnc : ∀ hdr rsn v, ∃ n, env.encLen (.error hdr rsn) v = some n ∧ n ≤ cfg.maxResponseSize
 
-/-- what the engine returns can be written under the version it returns (NOT guaranteed by the
-code: see `unencodable_response_unanswered`) -/
-def EngineEncodable (env : Env Q R σ) : Prop :=
-  ∀ s q id r m v s', env.engine s q id = (.ok r m v, s') → ∃ n, env.encLen (.normal r) v = some n
-
 /-- FULL statement: whatever the decoder, the engine and the engine's response are, every framed
 request of the stream gets exactly one response, in order, and nothing but the end of the
 connection ends an iteration. -/
@@ -87,23 +74,36 @@ theorem emit_error (env : Env Q R σ) (cfg : SessionCfg) (henc : EncoderOk env c
     emit env ⟨.error hdr rsn, cfg.maxResponseSize, cfg.defaultVer, req, call⟩ = ⟨some (.error hdr rsn), call⟩ := by
   obtain ⟨n, hn, hle⟩ := henc.errEnc hdr rsn cfg.defaultVer
   unfold emit
-  simp only [hn]
+  simp only [hn, sizeCheck]
   have : ¬ ((n : Int) > (cfg.maxResponseSize : Int)) := by omega
   rw [if_neg this]
 
-theorem emit_sends (env : Env Q R σ) (cfg : SessionCfg) (henc : EncoderOk env cfg) (m : Mid Q R) (req : Q)
-    (hreq : m.request = some req) (n : Nat) (hn : env.encLen m.response m.kmipVersion = some n) :
-    ∃ r, (emit env m).sent = some r := by
+/-- with the request decoded, the size check always sends something -/
+theorem sizeCheck_sends (env : Env Q R σ) (cfg : SessionCfg) (henc : EncoderOk env cfg) (m : Mid Q R) (req : Q)
+    (hreq : m.request = some req) (resp : Response R) (n : Nat) :
+    (sizeCheck env m resp n).sent = some resp ∨
+    (sizeCheck env m resp n).sent = some (.error (env.version req) SRsn.responseTooLarge) := by
   obtain ⟨k, hk, _⟩ := henc.errEnc (env.version req) SRsn.responseTooLarge m.kmipVersion
-  unfold emit
-  simp only [hn, hreq, hk]
+  unfold sizeCheck
+  simp only [hreq, hk]
   split
-  · exact ⟨_, rfl⟩
-  · exact ⟨_, rfl⟩
+  · right; rfl
+  · left; rfl
 
-/-- Every framed request gets a response: no exception leaves `_handle_message_loop`. -/
+theorem emit_sends (env : Env Q R σ) (cfg : SessionCfg) (henc : EncoderOk env cfg) (m : Mid Q R) (req : Q)
+    (hreq : m.request = some req) : ∃ r, (emit env m).sent = some r := by
+  unfold emit
+  split
+  · rcases sizeCheck_sends env cfg henc m req hreq m.response _ with h | h <;> exact ⟨_, h⟩
+  · obtain ⟨k, hk, _⟩ := henc.errEnc (env.version req) SRsn.generalFailure m.kmipVersion
+    simp only [hreq, hk]
+    rcases sizeCheck_sends env cfg henc m req hreq (.error (env.version req) SRsn.generalFailure) k with h | h <;>
+      exact ⟨_, h⟩
+
+/-- Every framed request gets a response: no exception leaves `_handle_message_loop`, whatever the
+engine does and whatever it returns. -/
 theorem handle_one_response (env : Env Q R σ) (cfg : SessionCfg) (henc : EncoderOk env cfg)
-    (heng : EngineEncodable env) (peer : Option Cert) (s : σ) (data : Bytes) :
+    (peer : Option Cert) (s : σ) (data : Bytes) :
     ∃ r, (handleMessage env cfg peer s data).1.sent = some r := by
   unfold handleMessage evaluate
   split
@@ -113,14 +113,12 @@ theorem handle_one_response (env : Env Q R σ) (cfg : SessionCfg) (henc : Encode
     · split
       · rw [emit_error env cfg henc]; exact ⟨_, rfl⟩
       · split
-        · rename_i he
-          obtain ⟨n, hn⟩ := heng _ _ _ _ _ _ _ he
-          exact emit_sends env cfg henc _ _ rfl n hn
+        · exact emit_sends env cfg henc _ _ rfl
         · rw [emit_error env cfg henc]; exact ⟨_, rfl⟩
         · rw [emit_error env cfg henc]; exact ⟨_, rfl⟩
 
 theorem runReads_one_per_frame (env : Env Q R σ) (cfg : SessionCfg) (henc : EncoderOk env cfg)
-    (heng : EngineEncodable env) (peer : Option Cert) (rs : List Recv) (hns : ∀ p, Recv.short p ∉ rs) (s : σ) :
+    (peer : Option Cert) (rs : List Recv) (hns : ∀ p, Recv.short p ∉ rs) (s : σ) :
     (runReads env cfg peer s rs).1.map Event.frame? = (framesOf rs).1.map some ∧
     ∀ e ∈ (runReads env cfg peer s rs).1, ∃ f o r, e = Event.handled f o ∧ o.sent = some r := by
   induction rs generalizing s with
@@ -132,7 +130,7 @@ theorem runReads_one_per_frame (env : Env Q R σ) (cfg : SessionCfg) (henc : Enc
     | short p => exact absurd (List.mem_cons_self ..) (hns p)
     | ok d =>
       simp only [runReads, framesOf]
-      obtain ⟨r, hr⟩ := handle_one_response env cfg henc heng peer s d
+      obtain ⟨r, hr⟩ := handle_one_response env cfg henc peer s d
       obtain ⟨ih1, ih2⟩ := ih hxs (handleMessage env cfg peer s d).2
       constructor
       · simp only [List.map_cons, Event.frame?, ih1]
@@ -141,16 +139,15 @@ theorem runReads_one_per_frame (env : Env Q R σ) (cfg : SessionCfg) (henc : Enc
         · exact ⟨_, _, r, rfl, hr⟩
         · exact ih2 e he
 
-/-- What holds of the code: the full statement for every engine whose responses can be encoded.
-The session answers the framed requests of the stream one by one, in order: the events of the
-loop are exactly one per framed request, each of them sent a response, and no exception other
-than the end of the connection left an iteration. -/
-theorem one_response_per_frame_partial (env : Env Q R σ) (cfg : SessionCfg) (henc : EncoderOk env cfg)
-    (heng : EngineEncodable env) : OneResponsePerFrame env cfg := by
+/-- **The full statement holds.**  The session answers the framed requests of the stream one by
+one, in order: the events of the loop are exactly one per framed request, each of them sent a
+response, and no exception other than the end of the connection left an iteration. -/
+theorem one_response_per_frame (env : Env Q R σ) (cfg : SessionCfg) (henc : EncoderOk env cfg) :
+    OneResponsePerFrame env cfg := by
   intro peer s cs h
   rw [run_eq_runReads]
   unfold frames
-  apply runReads_one_per_frame env cfg henc heng
+  apply runReads_one_per_frame env cfg henc
   rw [reads_clean _ (clean_ofChunks _ h)]
   exact flatReads_no_short _
 
@@ -166,8 +163,7 @@ theorem runReads_event_per_frame (env : Env Q R σ) (cfg : SessionCfg) (peer : O
     | short p => exact absurd (List.mem_cons_self ..) (hns p)
     | ok d => simp only [runReads, framesOf, List.map_cons, Event.frame?, ih hxs]
 
-/-- Even without that assumption the events are one per framed request, in order (an iteration
-whose `write` raises sends nothing, is logged, and the loop goes on). -/
+/-- Without any contract on the encoder the events are still one per framed request, in order. -/
 theorem one_event_per_frame (env : Env Q R σ) (cfg : SessionCfg) (peer : Option Cert) (s : σ)
     (cs : List Bytes) (h : ∀ b ∈ cs, b ≠ []) :
     (run env cfg peer s (ofChunks cs)).1.map Event.frame? = (frames (ofChunks cs)).1.map some := by
@@ -177,17 +173,27 @@ theorem one_event_per_frame (env : Env Q R σ) (cfg : SessionCfg) (peer : Option
   rw [reads_clean _ (clean_ofChunks _ h)]
   exact flatReads_no_short _
 
-/-- Witness of the deviation: the engine answered, its response cannot be encoded, nothing is sent. -/
-theorem unencodable_response_unanswered (env : Env Q R σ) (cfg : SessionCfg)
+/-- The engine answered but its response cannot be encoded: the client is told General Failure under
+the request's version (or Response Too Large when even that exceeds the maximum it asked for);
+the engine call is on record. -/
+theorem unencodable_response_answered (env : Env Q R σ) (cfg : SessionCfg) (henc : EncoderOk env cfg)
     (peer : Option Cert) (cert : Cert) (s s' : σ) (data : Bytes) (req : Q) (id : Identity) (r : R)
     (m : Option Int) (v : Ver)
     (hcert : certStage cfg.auth.tlsClientAuth peer = some cert) (hp : env.parse data = some req)
     (ha : authenticate cfg.auth cert = some id) (he : env.engine s req id = (.ok r m v, s'))
     (hn : env.encLen (.normal r) v = none) :
-    (handleMessage env cfg peer s data).1.sent = none ∧
+    ((handleMessage env cfg peer s data).1.sent = some (.error (env.version req) SRsn.generalFailure) ∨
+     (handleMessage env cfg peer s data).1.sent = some (.error (env.version req) SRsn.responseTooLarge)) ∧
     (handleMessage env cfg peer s data).1.engineCall = some (req, id) := by
-  unfold handleMessage evaluate
-  simp [hcert, hp, ha, he, emit, hn]
+  constructor
+  · obtain ⟨k, hk, _⟩ := henc.errEnc (env.version req) SRsn.generalFailure v
+    unfold handleMessage evaluate
+    simp only [hcert, hp, ha, he, emit, hn, hk]
+    exact sizeCheck_sends env cfg henc _ req rfl _ k
+  · unfold handleMessage
+    rw [emit_engineCall]
+    unfold evaluate
+    simp only [hcert, hp, ha, he]
 
 /-! ## an undecodable frame: invalid-message error, nothing executed -/
 
@@ -269,7 +275,7 @@ theorem good_after_bad (env : Env Q R σ) (cfg : SessionCfg) (henc : EncoderOk e
 
 /-! ## response size -/
 
-/-- FULL statement of the last sentence of the property: whenever the engine's response, encoded,
+/-- The last sentence of the property: whenever the engine's response, encoded,
 is longer than the maximum the client asked for, the client receives RESPONSE_TOO_LARGE. -/
 def OversizeReplaced (env : Env Q R σ) (cfg : SessionCfg) : Prop :=
   ∀ (peer : Option Cert) (cert : Cert) (s s' : σ) (data : Bytes) (req : Q) (id : Identity) (r : R) (m : Int)
@@ -279,17 +285,13 @@ def OversizeReplaced (env : Env Q R σ) (cfg : SessionCfg) : Prop :=
     env.encLen (.normal r) v = some n → (n : Int) > m →
     (handleMessage env cfg peer s data).1.sent = some (.error (env.version req) SRsn.responseTooLarge)
 
-/-- What holds of the code: the statement for every requested maximum other than 0. -/
-theorem oversize_replaced_partial (env : Env Q R σ) (cfg : SessionCfg) (henc : EncoderOk env cfg)
-    (peer : Option Cert) (cert : Cert) (s s' : σ) (data : Bytes) (req : Q) (id : Identity) (r : R) (m : Int)
-    (v : Ver) (n : Nat)
-    (hcert : certStage cfg.auth.tlsClientAuth peer = some cert) (hp : env.parse data = some req)
-    (ha : authenticate cfg.auth cert = some id) (he : env.engine s req id = (.ok r (some m) v, s'))
-    (hn : env.encLen (.normal r) v = some n) (hbig : (n : Int) > m) (hm : m ≠ 0) :
-    (handleMessage env cfg peer s data).1.sent = some (.error (env.version req) SRsn.responseTooLarge) := by
+/-- **The full statement holds**, for every requested maximum (0 and negative values included). -/
+theorem oversize_replaced (env : Env Q R σ) (cfg : SessionCfg) (henc : EncoderOk env cfg) :
+    OversizeReplaced env cfg := by
+  intro peer cert s s' data req id r m v n hcert hp ha he hn hbig
   obtain ⟨k, hk, _⟩ := henc.errEnc (env.version req) SRsn.responseTooLarge v
   unfold handleMessage evaluate
-  simp only [hcert, hp, ha, he, hm, if_false, emit, hn, hbig, if_true, hk]
+  simp only [hcert, hp, ha, he, emit, sizeCheck, hn, hbig, if_true, hk]
 
 /-- no maximum requested: the session's own maximum (1 MiB) applies -/
 theorem oversize_default (env : Env Q R σ) (cfg : SessionCfg) (henc : EncoderOk env cfg)
@@ -302,7 +304,7 @@ theorem oversize_default (env : Env Q R σ) (cfg : SessionCfg) (henc : EncoderOk
   obtain ⟨k, hk, _⟩ := henc.errEnc (env.version req) SRsn.responseTooLarge v
   have : (n : Int) > (cfg.maxResponseSize : Int) := by omega
   unfold handleMessage evaluate
-  simp only [hcert, hp, ha, he, emit, hn, this, if_true, hk]
+  simp only [hcert, hp, ha, he, emit, sizeCheck, hn, this, if_true, hk]
 
 /-- a response that fits is sent unchanged -/
 theorem fitting_response_sent (env : Env Q R σ) (cfg : SessionCfg)
@@ -310,13 +312,13 @@ theorem fitting_response_sent (env : Env Q R σ) (cfg : SessionCfg)
     (v : Ver) (n : Nat)
     (hcert : certStage cfg.auth.tlsClientAuth peer = some cert) (hp : env.parse data = some req)
     (ha : authenticate cfg.auth cert = some id) (he : env.engine s req id = (.ok r (some m) v, s'))
-    (hn : env.encLen (.normal r) v = some n) (hfit : (n : Int) ≤ m) (hm : m ≠ 0) :
+    (hn : env.encLen (.normal r) v = some n) (hfit : (n : Int) ≤ m) :
     (handleMessage env cfg peer s data).1.sent = some (.normal r) := by
   have : ¬ ((n : Int) > m) := by omega
   unfold handleMessage evaluate
-  simp only [hcert, hp, ha, he, hm, if_false, emit, hn, this]
+  simp only [hcert, hp, ha, he, emit, sizeCheck, hn, this, if_false]
 
-/-! ### witness of the deviation: a requested maximum of 0 is ignored -/
+/-! ### a small world for the examples -/
 
 /-- one-request world: the decoder accepts everything, the engine answers "r" and echoes the
 requested maximum `m`, every message encodes to 100 bytes -/
@@ -331,8 +333,6 @@ def demoCert : Cert := ⟨some [.clientAuth], ["alice"]⟩
 
 theorem demo_encoderOk (m : Option Int) : EncoderOk (demoEnv m) demoCfg :=
   ⟨fun _ _ _ => ⟨100, rfl, by decide⟩⟩
-theorem demo_engineEncodable (m : Option Int) : EngineEncodable (demoEnv m) :=
-  fun _ _ _ _ _ _ _ _ => ⟨100, rfl⟩
 
 /-- the same world with an encoder that cannot write the engine's response -/
 def demoEnvUnencodable : Env Unit Unit Unit :=
@@ -340,40 +340,18 @@ def demoEnvUnencodable : Env Unit Unit Unit :=
 
 theorem demoUnencodable_encoderOk : EncoderOk demoEnvUnencodable demoCfg := ⟨fun _ _ _ => ⟨100, rfl, by decide⟩⟩
 
-/-- `OneResponsePerFrame` does not hold of the code as it is: one complete frame, no response. -/
-theorem one_response_full_statement_fails : ¬ OneResponsePerFrame demoEnvUnencodable demoCfg := by
-  intro h
-  obtain ⟨_, h2⟩ := h (some demoCert) () [[0x42, 0, 0x78, 1, 0, 0, 0, 0]] (by decide)
-  have hrun : (run demoEnvUnencodable demoCfg (some demoCert) () (ofChunks [[0x42, 0, 0x78, 1, 0, 0, 0, 0]])).1
-      = [Event.handled [0x42, 0, 0x78, 1, 0, 0, 0, 0] ⟨none, some ((), ⟨some "alice", none⟩)⟩] := by
-    rw [run_eq_runReads, reads_clean _ (clean_ofChunks _ (by decide)), flat_ofChunks]
-    have hfl : [[0x42, 0, 0x78, 1, 0, 0, 0, 0]].flatten = ([0x42, 0, 0x78, 1, 0, 0, 0, 0] : Bytes) ++ [] := by simp
-    rw [hfl, flatReads_append _ (by decide), flatReads_none (by decide)]
-    rfl
-  rw [hrun] at h2
-  obtain ⟨f, o, r, he, hs⟩ := h2 _ (List.mem_cons_self ..)
-  cases he
-  cases hs
-
-/-- the 100-byte response is sent although the client asked for at most 0 bytes -/
-theorem oversize_zero_not_replaced :
-    (handleMessage (demoEnv (some 0)) demoCfg (some demoCert) () []).1.sent = some (.normal ()) := by
-  decide
-
-theorem oversize_full_statement_fails : ¬ OversizeReplaced (demoEnv (some 0)) demoCfg := by
-  intro h
-  have := h (some demoCert) demoCert () () [] () ⟨some "alice", none⟩ () 0 (1, 2) 100 (by decide) rfl (by decide) rfl rfl
-    (by decide)
-  rw [oversize_zero_not_replaced] at this
-  cases this
-
 /-! ### non-vacuity -/
 
-/-- `EncoderOk` is satisfiable, and with it the hypotheses of `oversize_replaced_partial` -/
+/-- `EncoderOk` is satisfiable, and with it the hypotheses inside `OversizeReplaced`: a maximum of 64, and of 0 -/
 example : (handleMessage (demoEnv (some 64)) demoCfg (some demoCert) () []).1.sent
     = some (.error (1, 2) SRsn.responseTooLarge) :=
-  oversize_replaced_partial (demoEnv (some 64)) demoCfg (demo_encoderOk _) (some demoCert) demoCert () () [] ()
-    ⟨some "alice", none⟩ () 64 (1, 2) 100 (by decide) rfl (by decide) rfl rfl (by decide) (by decide)
+  oversize_replaced (demoEnv (some 64)) demoCfg (demo_encoderOk _) (some demoCert) demoCert () () [] ()
+    ⟨some "alice", none⟩ () 64 (1, 2) 100 (by decide) rfl (by decide) rfl rfl (by decide)
+example : (handleMessage (demoEnv (some 0)) demoCfg (some demoCert) () []).1.sent
+    = some (.error (1, 2) SRsn.responseTooLarge) := by decide
+/-- an unencodable engine response is answered General Failure -/
+example : (handleMessage demoEnvUnencodable demoCfg (some demoCert) () []).1.sent
+    = some (.error (1, 2) SRsn.generalFailure) := by decide
 
 /-- a complete frame: header announcing 8 payload bytes -/
 def demoFrame : Bytes := [0x42, 0, 0x78, 1, 0, 0, 0, 8, 1, 2, 3, 4, 5, 6, 7, 8]
@@ -388,8 +366,8 @@ example : frames (ofChunks ((demoFrame ++ demoFrame).map fun b => [b])) = ([demo
 /-- an undecodable frame exists for some decoder: hypotheses of `loop_continues` are satisfiable -/
 example : ∃ env : Env Unit Unit Unit, env.parse demoFrame = none ∧ EncoderOk env demoCfg :=
   ⟨{ demoEnv none with parse := fun _ => none }, rfl, ⟨fun _ _ _ => ⟨100, rfl, by decide⟩⟩⟩
-/-- the hypotheses of `one_response_per_frame_partial` are satisfiable -/
-example : OneResponsePerFrame (demoEnv none) demoCfg :=
-  one_response_per_frame_partial _ _ (demo_encoderOk _) (demo_engineEncodable _)
+/-- `OneResponsePerFrame` for two concrete worlds, one of them with unencodable engine responses -/
+example : OneResponsePerFrame (demoEnv none) demoCfg := one_response_per_frame _ _ (demo_encoderOk _)
+example : OneResponsePerFrame demoEnvUnencodable demoCfg := one_response_per_frame _ _ demoUnencodable_encoderOk
 
 end Kmip.C12
